@@ -17,7 +17,8 @@ REL = {"C01": ["C01", "C11", "C03", "C13"], "C02": ["C02", "C12", "C13"], "C03":
        "C15": ["C15"], "C16": ["C16", "C02"], "C17": ["C17"], "C18": ["C18"], "C19": ["C19"], "C20": ["C20"]}
 args = [a for a in sys.argv[1:] if not a.startswith("--")]
 recheck = "--recheck" in sys.argv
-for d in sorted(glob.glob("/tmp/wt/*-out/*")) + sorted(glob.glob(os.path.join(VERIF, "seeded", "*"))):
+done = set()
+for d in sorted(glob.glob("/tmp/wt/*-out/*")) + sorted(glob.glob("/tmp/wt/*-out2/*")) + sorted(glob.glob(os.path.join(VERIF, "seeded", "*"))):
     if not os.path.isfile(os.path.join(d, "patch.diff")):
         continue
     if d.startswith("/tmp/wt/"):
@@ -28,6 +29,9 @@ for d in sorted(glob.glob("/tmp/wt/*-out/*")) + sorted(glob.glob(os.path.join(VE
         pid = tag[:3]
     if args and pid not in args and tag not in args:
         continue
+    if tag in done:
+        continue
+    done.add(tag)
     keep = os.path.join(VERIF, "seeded", tag)
     metap = os.path.join(keep, "meta.json")
     if os.path.exists(metap) and not d.startswith(keep):
